@@ -948,7 +948,8 @@ def gen_set_cases(ctx, rng, ntypes):
         t = gen_ty(rng, [0, 1, 2, 3])
         arg = {"ty": t, "default": None, "generator": False, "constant": False}
         inner = t["t"] if t["k"] == "opt" else t
-        if t["k"] not in ("opt",) and not ({"cfg", "any"} & set(ty_kinds(t, []))) and rng.random() < 0.15:  # defaults must be clonable
+        if t["k"] not in ("opt",) and not ({"cfg", "any", "union"} & set(ty_kinds(t, []))) and rng.random() < 0.15:
+            # a default must be clonable (no Any) and is itself validated when the class is initialised (no Union: N2 would hit it)
             arg["default"] = vg.conforming(inner)
             if arg["default"]["k"] == "none":  # `= None` declares no default
                 arg["default"] = None
@@ -1178,6 +1179,9 @@ def gen_lib(rng):
                 ty = gen_inner(rng, rng.choice([0, 0, 1]), [0], allow_union=False)
                 if {"cfg", "any"} & set(ty_kinds(ty, [])):
                     ty = T(rng.choice(SCALARS))
+                if ty["k"] != "path" and "path" in ty_kinds(ty, []):
+                    # the identifier computation of a real submit has no case for a Path inside a list/dict (C01-C03's business)
+                    ty = json.loads(json.dumps(ty).replace('"path"', '"str"'))
             elif r < 0.6:
                 ty = T("cfg", c=rng.choice(cfgs))
             elif r < 0.92:
